@@ -36,7 +36,7 @@ def run_tlc(module, cfg, metadir, env=None, workers=None, timeout=1800, coverage
     if os.path.isdir(metadir):
         shutil.rmtree(metadir, ignore_errors=True)
     os.makedirs(metadir, exist_ok=True)
-    jopts = ["-Xss512m", "-Xmx" + heap, "-XX:+UseParallelGC"]
+    jopts = ["-Xss1g", "-Xmx" + heap, "-XX:+UseParallelGC"]
     if deque:
         jopts.append("-Dtlc2.tool.queue.IStateQueue=StateDeque")
     cmd = ["java"] + jopts + ["-cp", JAR + ":/opt/veriftools/tla/CommunityModules-deps.jar", "tlc2.TLC"]
